@@ -192,7 +192,7 @@ class Run:
                 gen, dist = parse_states(out)
                 self.cov["states"] += dist
                 self.cov["transitions"] += gen
-                for m in re.finditer(r'<<"ACCEPT", "([^"]*)">>', out):
+                for m in re.finditer(r'<<\s*"ACCEPT",\s*"([^"]*)"', out):
                     accepted.add(m.group(1))
         log("TLC validated %d files with %s: %d/%d scenarios accepted, %.1fs" % (len(files), module, len(accepted & set(all_ids)), len(all_ids), time.time() - t))
         return accepted, all_ids
